@@ -1,6 +1,781 @@
 package main
 
-// runConc: mode conc (stub, filled in by its check).
-func runConc(script, out string) {
-	fatal("mode conc not implemented")
+// Mode conc: real concurrency against the real package (property C15). No virtual clock: this mode is
+// meant for the binary built with -race (the detector's reports go to the file named by GORACE
+// log_path) and also runs in the plain build.
+//
+// Script: one "name value" pair per line (defaults in defaultConc):
+//
+//	clients 3            number of clients (each has its own cookie jar and session)
+//	inflight 3           request goroutines per client, all using the client's jar
+//	reqs 100             requests per goroutine
+//	hops 4               handler operations per request
+//	seed 1
+//	cache 2              MaxSessionCacheSize
+//	codec gob|json
+//	idexpiry 0           SessionIDExpiry in ns (0: the ID is replaced on every request)
+//	grace 20000000       SessionIDGracePeriod in ns
+//	sessionexpiry max    SessionExpiry in ns
+//	cacheexpiry ...      SessionCacheExpiry in ns
+//	keys 2               size of the key space of the key/value operations
+//	mix set=4,get=4,...  weights of the handler operations (set get del getdel login loginx logout regen
+//	                     user lastaccess expired enc dec destroy)
+//	cuid 1 / purge 1     extra goroutines calling sessions.CUID() / sessions.PurgeSessions()
+//	hist 1               record the call/return history of the key/value operations. The time stamps come
+//	                     from one atomic counter, which orders the goroutines for the race detector, so
+//	                     race hunting scenarios switch it off.
+//	deadline 60000       ms until the goroutines are told to stop; 10 s later whatever still runs is "stuck"
+//	directed <name>      run a directed two/three goroutine schedule instead of the generator (see directed())
+//	iters 300            iterations of a directed schedule
+//
+// Transcript:
+//
+//	conc <the effective parameters>
+//	call <ts> <g> <op> <object> <key> [<value>]     key/value operation called (ts: global atomic counter)
+//	ret <ts> <g> <op> <result>                      ... returned: ok | err | <value> | - (nothing stored)
+//	panic <g> <message>                             a recovered panic inside an API call
+//	stuck <n>                                       n goroutines had not finished at the hard deadline
+//	stat <name> <n>
+//	end
+import (
+	"bufio"
+	"bytes"
+	"encoding/gob"
+	"encoding/json"
+	"fmt"
+	mrand "math/rand"
+	"net/http"
+	"os"
+	"runtime"
+	"sort"
+	"strconv"
+	"strings"
+	"sync"
+	"sync/atomic"
+	"time"
+
+	"github.com/rivo/sessions"
+)
+
+// ---------------------------------------------------------------------------
+// The honest store made safe for concurrent callers: one mutex around every call ("serialising store").
+
+type lockedStore struct {
+	mu sync.Mutex
+	st *store
+}
+
+func (l *lockedStore) trim() { l.st.events = l.st.events[:0] }
+
+func (l *lockedStore) LoadSession(id string) (*sessions.Session, error) {
+	l.mu.Lock()
+	defer l.mu.Unlock()
+	defer l.trim()
+	return l.st.LoadSession(id)
+}
+
+func (l *lockedStore) SaveSession(id string, s *sessions.Session) error {
+	l.mu.Lock()
+	defer l.mu.Unlock()
+	defer l.trim()
+	return l.st.SaveSession(id, s)
+}
+
+func (l *lockedStore) DeleteSession(id string) error {
+	l.mu.Lock()
+	defer l.mu.Unlock()
+	defer l.trim()
+	return l.st.DeleteSession(id)
+}
+
+func (l *lockedStore) UserSessions(userID interface{}) ([]string, error) {
+	l.mu.Lock()
+	defer l.mu.Unlock()
+	defer l.trim()
+	return l.st.UserSessions(userID)
+}
+
+// LoadUser is called by the package's decoders, i.e. from inside the store's own decoding (the mutex is
+// then held by the caller) and from decoding done by handler goroutines. It touches no shared state.
+func (l *lockedStore) LoadUser(id interface{}) (sessions.User, error) {
+	return &user{ID: fmt.Sprint(id)}, nil
+}
+
+// ---------------------------------------------------------------------------
+
+type concCfg struct {
+	clients, inflight, reqs, hops int
+	seed                          int64
+	cache                         int
+	codec                         string
+	idExpiry, grace               time.Duration
+	sessExpiry, cacheExpiry       time.Duration
+	keys                          int
+	mix                           string
+	cuid, purge                   int
+	hist                          bool
+	deadline                      time.Duration
+	directed                      string
+	iters                         int
+}
+
+const defaultMix = "set=5,get=5,del=2,getdel=4,login=1,loginx=1,logout=1,regen=1,user=1,lastaccess=1,expired=1,enc=1,dec=1,destroy=0"
+
+func defaultConc() concCfg {
+	return concCfg{clients: 3, inflight: 3, reqs: 100, hops: 4, seed: 1, cache: 2, codec: "gob", idExpiry: 0, grace: 20 * time.Millisecond,
+		sessExpiry: 1<<63 - 1, cacheExpiry: time.Hour, keys: 2, mix: defaultMix, cuid: 1, purge: 1, hist: true, deadline: 60 * time.Second, iters: 300}
+}
+
+func parseConc(path string) concCfg {
+	c := defaultConc()
+	data, err := os.ReadFile(path)
+	if err != nil {
+		fatal("%v", err)
+	}
+	for _, line := range strings.Split(string(data), "\n") {
+		line = strings.TrimSpace(line)
+		if line == "" || strings.HasPrefix(line, "//") || strings.HasPrefix(line, "#") {
+			continue
+		}
+		t := strings.Fields(line)
+		if len(t) != 2 {
+			fatal("bad conc script line %q", line)
+		}
+		switch t[0] {
+		case "clients":
+			c.clients = int(atoi64(t[1]))
+		case "inflight":
+			c.inflight = int(atoi64(t[1]))
+		case "reqs":
+			c.reqs = int(atoi64(t[1]))
+		case "hops":
+			c.hops = int(atoi64(t[1]))
+		case "seed":
+			c.seed = atoi64(t[1])
+		case "cache":
+			c.cache = int(atoi64(t[1]))
+		case "codec":
+			if t[1] != "gob" && t[1] != "json" {
+				fatal("bad codec %q", t[1])
+			}
+			c.codec = t[1]
+		case "idexpiry":
+			c.idExpiry = time.Duration(atoi64(t[1]))
+		case "grace":
+			c.grace = time.Duration(atoi64(t[1]))
+		case "sessionexpiry":
+			c.sessExpiry = time.Duration(atoi64(t[1]))
+		case "cacheexpiry":
+			c.cacheExpiry = time.Duration(atoi64(t[1]))
+		case "keys":
+			c.keys = int(atoi64(t[1]))
+		case "mix":
+			c.mix = t[1]
+		case "cuid":
+			c.cuid = int(atoi64(t[1]))
+		case "purge":
+			c.purge = int(atoi64(t[1]))
+		case "hist":
+			c.hist = t[1] != "0"
+		case "deadline":
+			c.deadline = time.Duration(atoi64(t[1])) * time.Millisecond
+		case "directed":
+			c.directed = t[1]
+		case "iters":
+			c.iters = int(atoi64(t[1]))
+		default:
+			fatal("unknown conc parameter %q", t[0])
+		}
+	}
+	if c.clients < 1 || c.inflight < 1 || c.keys < 1 {
+		fatal("clients, inflight and keys must be positive")
+	}
+	return c
+}
+
+type weighted struct {
+	op string
+	w  int
+}
+
+func parseMix(s string) ([]weighted, int) {
+	known := map[string]bool{"set": true, "get": true, "del": true, "getdel": true, "login": true, "loginx": true, "logout": true, "regen": true,
+		"user": true, "lastaccess": true, "expired": true, "enc": true, "dec": true, "destroy": true}
+	var out []weighted
+	total := 0
+	for _, p := range strings.Split(s, ",") {
+		kv := strings.SplitN(p, "=", 2)
+		if len(kv) != 2 || !known[kv[0]] {
+			fatal("bad mix entry %q", p)
+		}
+		w := int(atoi64(kv[1]))
+		if w > 0 {
+			out = append(out, weighted{kv[0], w})
+			total += w
+		}
+	}
+	if total == 0 {
+		fatal("empty mix")
+	}
+	return out, total
+}
+
+// ---------------------------------------------------------------------------
+
+type histEv struct {
+	ts   int64
+	line string
+}
+
+// cgor is the private state of one harness goroutine. Nothing in it is shared while the run lasts, so
+// that the harness adds no synchronisation between the goroutines beyond the jar and the store.
+type cgor struct {
+	id     int
+	rnd    *mrand.Rand
+	hist   []histEv
+	panics []string
+	keep   []*sessions.Session // every object seen stays reachable, so "%p" identifies it for the whole run
+	nset   int
+	stat   map[string]int
+	done   int32
+}
+
+type cjar struct {
+	mu        sync.Mutex
+	cur, prev string
+}
+
+type concH struct {
+	cfg    concCfg
+	mix    []weighted
+	mixTot int
+	jars   []*cjar
+	clock  int64
+	stop   int32
+	gors   []*cgor
+	wg     sync.WaitGroup
+}
+
+func (h *concH) stopped() bool { return atomic.LoadInt32(&h.stop) != 0 }
+
+func (h *concH) newGor() *cgor {
+	g := &cgor{id: len(h.gors), stat: map[string]int{}}
+	g.rnd = mrand.New(mrand.NewSource(h.cfg.seed*1000003 + int64(g.id)*7919 + 1))
+	h.gors = append(h.gors, g)
+	return g
+}
+
+// spawn runs f on its own goroutine with panic capture and completion accounting.
+func (h *concH) spawn(g *cgor, f func()) {
+	h.wg.Add(1)
+	go func() {
+		defer h.wg.Done()
+		defer atomic.StoreInt32(&g.done, 1)
+		defer func() {
+			if r := recover(); r != nil {
+				g.panics = append(g.panics, "harness goroutine: "+firstLine(fmt.Sprint(r)))
+			}
+		}()
+		f()
+	}()
+}
+
+func firstLine(s string) string { return strings.SplitN(s, "\n", 2)[0] }
+
+// safe runs one API call; a panic is recorded and the goroutine goes on.
+func (g *cgor) safe(what string, f func()) (ok bool) {
+	defer func() {
+		if r := recover(); r != nil {
+			g.panics = append(g.panics, what+": "+firstLine(fmt.Sprint(r)))
+			g.stat["panics"]++
+			ok = false
+		}
+	}()
+	f()
+	return true
+}
+
+func (h *concH) call(g *cgor, op, obj, key, val string) {
+	if !h.cfg.hist {
+		return
+	}
+	ts := atomic.AddInt64(&h.clock, 1)
+	l := fmt.Sprintf("call %d %d %s %s %s", ts, g.id, op, obj, key)
+	if val != "" {
+		l += " " + val
+	}
+	g.hist = append(g.hist, histEv{ts, l})
+}
+
+func (h *concH) ret(g *cgor, op, res string) {
+	if !h.cfg.hist {
+		return
+	}
+	ts := atomic.AddInt64(&h.clock, 1)
+	g.hist = append(g.hist, histEv{ts, fmt.Sprintf("ret %d %d %s %s", ts, g.id, op, res)})
+}
+
+func okErr(err error) string {
+	if err != nil {
+		return "err"
+	}
+	return "ok"
+}
+
+func valStr(v interface{}) string {
+	switch x := v.(type) {
+	case nil:
+		return "-"
+	case string:
+		if x == "" || strings.ContainsAny(x, " \n") {
+			return "?" + strconv.Quote(x)
+		}
+		return x
+	default:
+		return fmt.Sprintf("?%T", v)
+	}
+}
+
+func newReq(client int, cookie string) (*http.Request, *respWriter) {
+	req := &http.Request{Method: "GET", Header: http.Header{}, RemoteAddr: fmt.Sprintf("10.0.%d.1:4000", client%250)}
+	req.Header.Set("User-Agent", fmt.Sprintf("agent-%d", client))
+	if cookie != "" {
+		req.Header.Set("Cookie", sessions.SessionCookie+"="+cookie)
+	}
+	return req, &respWriter{h: http.Header{}}
+}
+
+// cookieOf returns what a browser would do with the response: (value, set, deleted).
+func cookieOf(resp *respWriter) (string, bool, bool) {
+	r := http.Response{Header: resp.h}
+	val, set, del := "", false, false
+	for _, c := range r.Cookies() {
+		if c.Name != sessions.SessionCookie {
+			continue
+		}
+		if c.MaxAge < 0 || (!c.Expires.IsZero() && !c.Expires.After(time.Now())) {
+			val, set, del = "", false, true
+		} else {
+			val, set, del = c.Value, true, false
+		}
+	}
+	return val, set, del
+}
+
+func (h *concH) pick(g *cgor) string {
+	n := g.rnd.Intn(h.mixTot)
+	for _, w := range h.mix {
+		if n < w.w {
+			return w.op
+		}
+		n -= w.w
+	}
+	return h.mix[0].op
+}
+
+// handlerOp performs one random method call on a session obtained from Start.
+func (h *concH) handlerOp(g *cgor, client int, s *sessions.Session, resp *respWriter, req *http.Request) {
+	op := h.pick(g)
+	obj := fmt.Sprintf("%p", s)
+	key := "k" + strconv.Itoa(g.rnd.Intn(h.cfg.keys))
+	g.stat["op_"+op]++
+	switch op {
+	case "set":
+		val := fmt.Sprintf("v%d.%d", g.id, g.nset)
+		g.nset++
+		h.call(g, "set", obj, key, val)
+		var err error
+		if g.safe("Set", func() { err = s.Set(key, val) }) {
+			h.ret(g, "set", okErr(err))
+		}
+	case "get":
+		h.call(g, "get", obj, key, "")
+		var v interface{}
+		if g.safe("Get", func() { v = s.Get(key, nil) }) {
+			h.ret(g, "get", valStr(v))
+		}
+	case "del":
+		h.call(g, "del", obj, key, "")
+		var err error
+		if g.safe("Delete", func() { err = s.Delete(key) }) {
+			h.ret(g, "del", okErr(err))
+		}
+	case "getdel":
+		h.call(g, "getdel", obj, key, "")
+		var v interface{}
+		if g.safe("GetAndDelete", func() { v = s.GetAndDelete(key, nil) }) {
+			h.ret(g, "getdel", valStr(v))
+		}
+	case "login", "loginx":
+		u := &user{ID: "u" + strconv.Itoa(client)}
+		g.safe("LogIn", func() {
+			if err := s.LogIn(u, op == "loginx", resp); err != nil {
+				g.stat["login_err"]++
+			}
+		})
+	case "logout":
+		g.safe("LogOut", func() { s.LogOut() })
+	case "regen":
+		g.safe("RegenerateID", func() {
+			if err := s.RegenerateID(resp); err != nil {
+				g.stat["regen_err"]++
+			}
+		})
+	case "user":
+		g.safe("User", func() { _ = s.User() })
+	case "lastaccess":
+		g.safe("LastAccess", func() { _ = s.LastAccess() })
+	case "expired":
+		g.safe("Expired", func() { _ = s.Expired() })
+	case "enc", "dec":
+		g.safe("encoding", func() {
+			var buf bytes.Buffer
+			if err := gob.NewEncoder(&buf).Encode(s); err != nil {
+				g.stat["enc_err"]++
+			}
+			js, err := json.Marshal(s)
+			if err != nil {
+				g.stat["enc_err"]++
+			}
+			if op == "dec" {
+				var a, b sessions.Session
+				if err := gob.NewDecoder(&buf).Decode(&a); err != nil {
+					g.stat["dec_err"]++
+				}
+				if err := json.Unmarshal(js, &b); err != nil {
+					g.stat["dec_err"]++
+				}
+			}
+		})
+	case "destroy":
+		g.safe("Destroy", func() { s.Destroy(resp, req) })
+	}
+}
+
+// request is one HTTP request of a client: Start with a cookie from the jar, handler calls, jar update.
+func (h *concH) request(g *cgor, client int) {
+	jar := h.jars[client]
+	jar.mu.Lock()
+	cookie := jar.cur
+	switch r := g.rnd.Intn(100); {
+	case r < 20 && jar.prev != "":
+		cookie = jar.prev // an in-flight request that still carries the replaced ID
+	case r < 22:
+		cookie = "" // cookie lost: a new session
+	case r < 24:
+		cookie = "AAAAAAAAAAAAAAAAAAAAAA==" // unknown ID
+	}
+	jar.mu.Unlock()
+	req, resp := newReq(client, cookie)
+	var s *sessions.Session
+	var err error
+	g.stat["requests"]++
+	if !g.safe("Start", func() { s, err = sessions.Start(resp, req, true) }) {
+		return
+	}
+	switch {
+	case err != nil:
+		g.stat["start_err"]++
+	case s == nil:
+		g.stat["start_nil"]++
+	case cookie == "":
+		g.stat["start_new"]++
+	default:
+		g.stat["start_ok"]++
+	}
+	if s != nil {
+		g.keep = append(g.keep, s)
+		for i := 0; i < h.cfg.hops && !h.stopped(); i++ {
+			h.handlerOp(g, client, s, resp, req)
+		}
+	}
+	if v, set, del := cookieOf(resp); set || del {
+		jar.mu.Lock()
+		if set && v != jar.cur {
+			jar.prev, jar.cur = jar.cur, v
+		} else if del && jar.cur == cookie {
+			jar.cur = ""
+		}
+		jar.mu.Unlock()
+	}
+}
+
+func (h *concH) generator() {
+	for c := 0; c < h.cfg.clients; c++ {
+		h.jars = append(h.jars, &cjar{})
+	}
+	for c := 0; c < h.cfg.clients; c++ {
+		for i := 0; i < h.cfg.inflight; i++ {
+			g, client := h.newGor(), c
+			h.spawn(g, func() {
+				for n := 0; n < h.cfg.reqs && !h.stopped(); n++ {
+					h.request(g, client)
+				}
+			})
+		}
+	}
+	total := h.cfg.reqs * (h.cfg.hops + 1)
+	for i := 0; i < h.cfg.cuid; i++ {
+		g := h.newGor()
+		h.spawn(g, func() {
+			for n := 0; n < total && !h.stopped(); n++ {
+				g.safe("CUID", func() {
+					if id := sessions.CUID(); len(id) != 11 {
+						g.panics = append(g.panics, "CUID: length "+strconv.Itoa(len(id)))
+					}
+				})
+				g.stat["cuid"]++
+				if n%64 == 0 {
+					runtime.Gosched()
+				}
+			}
+		})
+	}
+	for i := 0; i < h.cfg.purge; i++ {
+		g := h.newGor()
+		h.spawn(g, func() {
+			for n := 0; n < h.cfg.reqs && !h.stopped(); n++ {
+				g.safe("PurgeSessions", func() { sessions.PurgeSessions() })
+				g.stat["purge"]++
+				time.Sleep(time.Duration(200+g.rnd.Intn(1800)) * time.Microsecond)
+			}
+		})
+	}
+}
+
+// ---------------------------------------------------------------------------
+// Directed schedules: each aims two or three goroutines at one pair of accesses.
+
+// startAs performs Start for a client with the given cookie and returns the session and the cookie value
+// the response sets (if any).
+func startAs(g *cgor, client int, cookie string) (*sessions.Session, string) {
+	req, resp := newReq(client, cookie)
+	var s *sessions.Session
+	g.safe("Start", func() {
+		var err error
+		s, err = sessions.Start(resp, req, true)
+		if err != nil {
+			g.stat["start_err"]++
+		}
+	})
+	v, _, _ := cookieOf(resp)
+	if s != nil {
+		g.keep = append(g.keep, s)
+	}
+	g.stat["requests"]++
+	return s, v
+}
+
+func (h *concH) loop(n int, f func(i int)) {
+	for i := 0; i < n && !h.stopped(); i++ {
+		f(i)
+	}
+}
+
+// twoHandles: two requests of one client obtain the same cached object through Start.
+func (h *concH) twoHandles(g0 *cgor) (a, b *sessions.Session, id string) {
+	_, id = startAs(g0, 0, "")
+	a, _ = startAs(g0, 0, id)
+	b, _ = startAs(g0, 0, id)
+	if a == nil || a != b {
+		fatal("directed: the two requests did not obtain one shared object")
+	}
+	return a, b, id
+}
+
+func (h *concH) directed() {
+	g0 := h.newGor()
+	n := h.cfg.iters
+	dummy := func() *respWriter { return &respWriter{h: http.Header{}} }
+	// hammer runs f against a concurrent RegenerateID loop on the same object.
+	againstRegen := func(f func(g *cgor, s *sessions.Session, i int)) {
+		a, b, _ := h.twoHandles(g0)
+		g1, g2 := h.newGor(), h.newGor()
+		h.spawn(g1, func() { h.loop(n, func(i int) { f(g1, a, i) }) })
+		h.spawn(g2, func() {
+			h.loop(n, func(i int) { g2.safe("RegenerateID", func() { b.RegenerateID(dummy()) }) })
+		})
+	}
+	switch h.cfg.directed {
+	case "start-ua":
+		// the replaced ID (in its grace period) and the new ID are presented concurrently: different
+		// per-ID locks, one object. Start's unlocked read of lastUserAgentHash against Start's write.
+		_, id0 := startAs(g0, 0, "")
+		s, _ := startAs(g0, 0, id0)
+		resp := dummy()
+		if s == nil || s.RegenerateID(resp) != nil {
+			fatal("directed start-ua: setup failed")
+		}
+		id1, _, _ := cookieOf(resp)
+		g1, g2 := h.newGor(), h.newGor()
+		h.spawn(g1, func() { h.loop(n, func(int) { startAs(g1, 0, id0) }) })
+		h.spawn(g2, func() { h.loop(n, func(int) { startAs(g2, 0, id1) }) })
+	case "compact":
+		// requests on cached sessions while other clients create sessions, which makes the cache evict:
+		// compact's read of lastAccess against Start's write.
+		k := h.cfg.cache
+		if k < 1 {
+			k = 1
+		}
+		for c := 0; c < k; c++ {
+			_, id := startAs(g0, c, "")
+			g, client := h.newGor(), c
+			h.spawn(g, func() { h.loop(n, func(int) { startAs(g, client, id) }) })
+		}
+		for j := 0; j < 2; j++ {
+			g := h.newGor()
+			h.spawn(g, func() { h.loop(n, func(i int) { startAs(g, 100+g.id, "") }) })
+		}
+	case "id-set":
+		againstRegen(func(g *cgor, s *sessions.Session, i int) { g.safe("Set", func() { s.Set("k0", "v"+strconv.Itoa(i)) }) })
+	case "id-delete":
+		againstRegen(func(g *cgor, s *sessions.Session, i int) { g.safe("Delete", func() { s.Delete("k0") }) })
+	case "id-logout":
+		againstRegen(func(g *cgor, s *sessions.Session, i int) {
+			g.safe("LogIn", func() { s.LogIn(&user{ID: "u0"}, false, dummy()) })
+			g.safe("LogOut", func() { s.LogOut() })
+		})
+	case "id-login":
+		againstRegen(func(g *cgor, s *sessions.Session, i int) {
+			g.safe("LogIn", func() { s.LogIn(&user{ID: "u0"}, false, dummy()) })
+		})
+	case "id-destroy":
+		// per round: two requests hold the session; one destroys it while the other changes its ID.
+		g1, g2 := h.newGor(), h.newGor()
+		g1.done, g2.done = 1, 1 // their goroutines live inside g0's rounds
+		var round sync.WaitGroup
+		h.spawn(g0, func() {
+			h.loop(n, func(int) {
+				a, b, id := h.twoHandles(g0)
+				round.Add(2)
+				go func() {
+					defer round.Done()
+					req, resp := newReq(0, id)
+					g1.safe("Destroy", func() { a.Destroy(resp, req) })
+				}()
+				go func() {
+					defer round.Done()
+					for j := 0; j < 8; j++ {
+						g2.safe("RegenerateID", func() { b.RegenerateID(dummy()) })
+					}
+				}()
+				round.Wait()
+			})
+		})
+	case "regen-fields":
+		// RegenerateID's unlocked reads of id/created/lastIP/lastUserAgentHash against another
+		// RegenerateID (created, id) and against Start through the first, replaced ID (lastIP, hash).
+		a, b, id0 := h.twoHandles(g0)
+		g1, g2, g3 := h.newGor(), h.newGor(), h.newGor()
+		h.spawn(g1, func() { h.loop(n, func(int) { g1.safe("RegenerateID", func() { a.RegenerateID(dummy()) }) }) })
+		h.spawn(g2, func() { h.loop(n, func(int) { g2.safe("RegenerateID", func() { b.RegenerateID(dummy()) }) }) })
+		h.spawn(g3, func() { h.loop(n, func(int) { startAs(g3, 0, id0) }) })
+	default:
+		fatal("unknown directed schedule %q", h.cfg.directed)
+	}
+}
+
+// ---------------------------------------------------------------------------
+
+func runConc(script, outPath string) {
+	f, err := os.OpenFile(outPath, os.O_APPEND|os.O_CREATE|os.O_WRONLY, 0o644)
+	if err != nil {
+		fmt.Fprintln(os.Stderr, err)
+		os.Exit(3)
+	}
+	out = bufio.NewWriterSize(f, 1<<16)
+	defer out.Flush()
+	epoch0 = time.Now()
+	cfg := parseConc(script)
+	h := &concH{cfg: cfg}
+	h.mix, h.mixTot = parseMix(cfg.mix)
+	emit("conc clients=%d inflight=%d reqs=%d hops=%d seed=%d cache=%d codec=%s idexpiry=%d grace=%d keys=%d mix=%s cuid=%d purge=%d hist=%d directed=%s iters=%d procs=%d",
+		cfg.clients, cfg.inflight, cfg.reqs, cfg.hops, cfg.seed, cfg.cache, cfg.codec, int64(cfg.idExpiry), int64(cfg.grace), cfg.keys, cfg.mix,
+		cfg.cuid, cfg.purge, b2i(cfg.hist), qopt(cfg.directed), cfg.iters, runtime.GOMAXPROCS(0))
+	out.Flush()
+
+	sessions.Persistence = &lockedStore{st: newStore(cfg.codec)}
+	sessions.MaxSessionCacheSize = cfg.cache
+	sessions.SessionIDExpiry = cfg.idExpiry
+	sessions.SessionIDGracePeriod = cfg.grace
+	sessions.SessionExpiry = cfg.sessExpiry
+	sessions.SessionCacheExpiry = cfg.cacheExpiry
+
+	if cfg.directed != "" {
+		h.directed()
+	} else {
+		h.generator()
+	}
+	finished := make(chan struct{})
+	go func() { h.wg.Wait(); close(finished) }()
+	stuck := 0
+	select {
+	case <-finished:
+	case <-time.After(cfg.deadline):
+		atomic.StoreInt32(&h.stop, 1)
+		select {
+		case <-finished:
+			emit("stat deadline_reached 1")
+		case <-time.After(10 * time.Second):
+			for _, g := range h.gors {
+				if atomic.LoadInt32(&g.done) == 0 {
+					stuck++
+				}
+			}
+		}
+	}
+	if stuck > 0 {
+		// The goroutines still run: print nothing of their private state, only the fact and the stacks.
+		emit("stuck %d", stuck)
+		buf := make([]byte, 1<<20)
+		buf = buf[:runtime.Stack(buf, true)]
+		for _, l := range strings.Split(string(buf), "\n") {
+			emit("# %s", l)
+		}
+		emit("end")
+		out.Flush()
+		os.Exit(5)
+	}
+	var evs []histEv
+	stat := map[string]int{}
+	objs := map[*sessions.Session]map[int]bool{}
+	for _, g := range h.gors {
+		evs = append(evs, g.hist...)
+		for k, v := range g.stat {
+			stat[k] += v
+		}
+		for _, s := range g.keep {
+			if objs[s] == nil {
+				objs[s] = map[int]bool{}
+			}
+			objs[s][g.id] = true
+		}
+	}
+	sort.Slice(evs, func(i, j int) bool { return evs[i].ts < evs[j].ts })
+	for _, e := range evs {
+		emit("%s", e.line)
+	}
+	for _, g := range h.gors {
+		for _, p := range g.panics {
+			emit("panic %d %s", g.id, p)
+		}
+	}
+	shared := 0
+	for _, gs := range objs {
+		if len(gs) > 1 {
+			shared++
+		}
+	}
+	stat["objects"] = len(objs)
+	stat["objects_shared"] = shared
+	stat["goroutines"] = len(h.gors)
+	names := make([]string, 0, len(stat))
+	for k := range stat {
+		names = append(names, k)
+	}
+	sort.Strings(names)
+	for _, k := range names {
+		emit("stat %s %d", k, stat[k])
+	}
+	emit("end")
 }
